@@ -259,8 +259,10 @@ def main():
             results.append({'site': i, 'verdict': 'invalid', 'error': repr(e)[:100]})
             return None
         d = make_dir('m%d' % i, text)
-        p = subprocess.Popen([sys.executable, __file__, '--worker', d, itemsfile, basefile], stdout=subprocess.PIPE,
+        outf = open(os.path.join(d, 'out.json'), 'w')       # not a pipe: nobody reads it while the worker runs
+        p = subprocess.Popen([sys.executable, __file__, '--worker', d, itemsfile, basefile], stdout=outf,
                              stderr=subprocess.DEVNULL, env=env)
+        outf.close()
         return (i, info, d, p, time.time())
     while pending or running:
         while pending and len(running) < a.jobs:
@@ -279,7 +281,7 @@ def main():
                 continue
             running.remove(r)
             try:
-                v = json.loads(p.stdout.read())
+                v = json.load(open(os.path.join(d, 'out.json')))
             except Exception:
                 v = {'verdict': 'crashed', 'detail': 'worker died'}
             results.append({'site': i, 'line': info[0], 'kind': info[1], 'desc': info[2], 'verdict': v['verdict'], 'detail': v.get('detail')})
